@@ -40,6 +40,21 @@ def _tables_plan(tier, seed, groups, kinds=BOOL_KINDS):
             for i, k in enumerate(kinds)]
 
 
+STORE_ACTIONS = ["Start", "CacheGet", "ReleaseOps", "LvlLock", "FindOrInsert", "LvlUnlock", "CacheAdd", "Publish",
+                 "HandleClone", "HandleDrop", "GcStart", "GcLevel", "GcEnd"]
+
+
+def store_mc(ck, tier):
+    """design level: exhaustive TLC exploration of Store.tla (all interleavings
+    of two application threads, handle clone/drop and the collector) with the
+    invariants RcExact, NoDangling, UniqueTable, CacheSound, FailClean"""
+    res = vlib.model_check("Store", "MC_StoreConcQuick", workers=6, xmx="4g", timeout=600)
+    ck.add_mc(res, must_cover=STORE_ACTIONS)
+    if tier == "thorough":
+        res = vlib.model_check("Store", "MC_StoreConcOom", workers=12, xmx="10g", timeout=1800)
+        ck.add_mc(res, must_cover=STORE_ACTIONS + ["Fail"])
+
+
 # ---------------------------------------------------------------------------
 
 def c01(ck, tier, seed):
@@ -72,6 +87,7 @@ def c03(ck, tier, seed):
     vlib.ensure_tables()
     plan = _tables_plan(tier, seed, "bool") + _hist_plan(tier, seed, quick_count=40)
     _bool_suite(ck, ["C03"], plan)
+    store_mc(ck, tier)
 
 
 def c04(ck, tier, seed):
@@ -89,6 +105,7 @@ def c05(ck, tier, seed):
                       "and denotation")
     plan = _hist_plan(tier, seed, quick_count=80)
     _bool_suite(ck, ["C05"], plan)
+    store_mc(ck, tier)
 
 
 def c08(ck, tier, seed):
